@@ -1,6 +1,6 @@
 """C22 — tenant / pipeline metadata survives restarts (persist-after-mutate, snapshot field coverage, write ordering)."""
 from vpr.facts import root_fn
-from vpr.prov import Slicer
+from vpr.prov import Slicer, forward_uses
 
 EXPLANATION = (
     "(a) R-ORDER on MIR of the CLI API handlers: every handler that calls a pipeline mutator of a tenant (deploy_pipeline*, "
@@ -117,7 +117,64 @@ def run_order(ctx):
             ctx.violation("write-order", name, "%s updates the tenant index before the snapshot write: after a crash in between the index names a tenant that cannot be recovered (or recovery resurrects a deleted one)" % name, site=b.term(c[0])["sp"])
 
 
+def absence_to_error(ctx, fn):
+    """does `fn` (a workspace helper, with its closures) turn a missing store key into an Err? — an Option::ok_or* on a value
+    obtained from StateStore::get, or a StoreError::NotFound it constructs itself"""
+    F = ctx.facts()
+    why = None
+    for p in F.bodies_of(fn):
+        b = ctx.body(p)
+        if b is None:
+            continue
+        for bb, t in b.calls():
+            if t["callee"].endswith(("Option::<T>::ok_or", "Option::<T>::ok_or_else")):
+                o = Slicer(b).origins([t["args"][0]])
+                if o.has_call("StateStore::get"):
+                    why = "%s at %s" % (t["callee"].rsplit("::", 1)[1], t["sp"])
+    for r in F.fieldacc:
+        if r["k"] == "init" and r["adt"].endswith("persistence::StoreError::NotFound") and root_fn(r["f"]) == fn:
+            why = why or "constructs StoreError::NotFound at %s" % r["sp"]
+    return why
+
+
+def run_recovery(ctx):
+    """(d) the write order of (c) allows a crash to leave an index entry without a snapshot (remove_tenant deletes the
+    snapshot first): recover() must skip such an entry, not abort — otherwise every tenant listed after it is lost"""
+    F = ctx.facts()
+    fn = T + "TenantManager::recover"
+    b = ctx.need_body(fn, rule="recovery")
+    inloop = [(bb, t) for bb, t in b.calls() if b.in_loop(bb)]
+    gets = [(bb, t) for bb, t in inloop if t["callee"].endswith("StateStore::get")]
+    helpers = [(bb, t) for bb, t in inloop if (t["inst"] or t["callee"]).startswith(T) and not t["callee"].endswith("StateStore::get")]
+    n = 0
+    for bb, t in helpers:
+        callee = t["inst"] or t["callee"]
+        why = absence_to_error(ctx, callee)
+        reaches_store = any(c["callee"].endswith("StateStore::get") for c in F.calls_from(callee, nested=True))
+        if reaches_store:
+            n += 1
+        if not why:
+            continue
+        sinks = forward_uses(b, t["dest"]["l"])
+        if any(s[0] == "return" for s in sinks):
+            ctx.violation("recovery", "dangling-index-entry", "recover() returns the error of %s, which reports a missing `tenant:<id>` key as an error (%s): an index entry without a snapshot — the state a crash inside remove_tenant leaves, since the snapshot is deleted before the index is rewritten — aborts recovery and every tenant listed after it is lost" % (
+                callee.rsplit("::", 1)[1], why), site=t["sp"])
+            return
+    # direct gets: the None case must continue the loop
+    for bb, t in gets:
+        n += 1
+        sinks = forward_uses(b, t["dest"]["l"])
+        # Option::ok_or* on the fetched value inside recover itself, flowing to the return
+        conv = [s for s in sinks if s[0] == "call" and s[1].endswith(("Option::<T>::ok_or", "Option::<T>::ok_or_else"))]
+        if conv and any(s[0] == "return" for s in sinks):
+            ctx.violation("recovery", "dangling-index-entry", "recover() converts a missing `tenant:<id>` snapshot into an error and returns it: a dangling index entry aborts recovery of all later tenants", site=t["sp"])
+            return
+    ctx.floor("recovery", "per-tenant snapshot reads inside recover()'s loop", n, 1)
+    ctx.ok("recovery", "dangling-index-entry", "a missing snapshot for an indexed tenant does not reach recover()'s return")
+
+
 def run(ctx):
+    ctx.guard("recovery", lambda: run_recovery(ctx))
     ctx.guard("persist-after-mutate", lambda: run_handlers(ctx))
     ctx.guard("snapshot-fields", lambda: run_fields(ctx))
     ctx.guard("write-order", lambda: run_order(ctx))
